@@ -191,6 +191,9 @@ impl Names {
         if rng.chance(1, 10) && add_xml_only_decl(&mut a, rng) {
             ctx.count("trees_with_an_xmlns_xml_only_element");
         }
+        if rng.chance(1, 8) && add_xml_alias(&mut a, rng) {
+            ctx.count("trees_with_a_second_binding_of_the_xml_namespace");
+        }
         if a.count() >= 3 {
             ctx.nontrivial(a.structural_hash());
         }
